@@ -6,6 +6,7 @@ import NrDaemon.Driver.Respawn
 import NrDaemon.Driver.Frame
 import NrDaemon.Driver.Lasp
 import NrDaemon.Driver.Proc
+import NrDaemon.Driver.Limiter
 /-!
   Op-line driver (core Lean only; built as a `lean_exe`).
 
@@ -17,6 +18,7 @@ structure DState where
   cont : ContState := {}
   mt : MtState := {}
   proc : ProcEng := {}
+  lim : LimEng := {}
 
 def dispatch (st : DState) (line : String) (impl : Option String) : DState × StepOut :=
   let t := tokenize line
@@ -31,6 +33,7 @@ def dispatch (st : DState) (line : String) (impl : Option String) : DState × St
   | some "frame" => (st, frameStep t impl)
   | some "lasp" => (st, laspStep t impl)
   | some "proc" => let (c, o) := procStep st.proc t impl; ({ st with proc := c }, o)
+  | some "limiter" => let (c, o) := limiterStep st.lim t impl; ({ st with lim := c }, o)
   | some "reset" => ({}, { model := "ok" })
   | _ => (st, { model := "bad-op" })
 
